@@ -10,6 +10,8 @@
 #include <string.h>
 #include <unistd.h>
 #include <sys/wait.h>
+#include <sys/stat.h>
+#include <fcntl.h>
 #include "vsched.h"
 #include "snoopy.h"
 #include "util/list-snoopy.h"
@@ -61,6 +63,8 @@ int main(int argc, char **argv) {
     if (argc < 6) return 2;
     strncpy(verif_cfgpath, argv[1], 4095); resfile = argv[2]; N = atoi(argv[3]); K = atoi(argv[4]); forkmode = !strcmp(argv[5], "fork"); if (argc > 6) forkdepth = atoi(argv[6]);
     verif_rec_cb = cb;
+    umask(027);
+    if (getenv("VS_STDIN_PTY")) { int m = posix_openpt(O_RDWR | O_NOCTTY); grantpt(m); unlockpt(m); int sl = open(ptsname(m), O_RDWR | O_NOCTTY); dup2(sl, 0); close(sl); }
     vs_init(N); vs_state_cb = state_digest;
     pthread_t th[8];
     for (long i = 0; i < N; i++) pthread_create(&th[i], NULL, body, (void *)i);
@@ -71,12 +75,13 @@ int main(int argc, char **argv) {
     int tl = pthread_mutex_trylock(&snoopy_tsrm_threadRepo_mutex); if (tl == 0) pthread_mutex_unlock(&snoopy_tsrm_threadRepo_mutex);
     /* a later lone call */
     { char *av[] = { "LONE", NULL }; char *ev[] = { NULL }; errno = 0; int r = execve("/lone", av, ev); if (r != -1 || errno != ENOENT) bad_ret[7]++; }
+    mode_t um_end = umask(027);
     FILE *f = fopen(resfile, "w");
     fprintf(f, "{\"n\":%d,\"k\":%d,\"ptid\":[", N, K); for (int i = 0; i < N; i++) fprintf(f, "%s%lu", i ? "," : "", ptid[i]);
     fprintf(f, "],\"rec_calls\":["); for (int i = 0; i < N; i++) fprintf(f, "%s%d", i ? "," : "", rec_calls[i]);
     int badr = 0; for (int i = 0; i < 8; i++) badr += bad_ret[i];
-    fprintf(f, "],\"lone_rec_calls\":%d,\"bad_ret\":%d,\"repo_count\":%d,\"repo_first_null\":%d,\"repo_last_null\":%d,\"mutex_trylock\":%d,\"child_status\":%d,\"child_reached\":%d,\"steps\":%d}\n",
-            rec_calls[7], badr, count, first_null, last_null, tl, child_status, child_reached, vs_steps());
+    fprintf(f, "],\"lone_rec_calls\":%d,\"bad_ret\":%d,\"repo_count\":%d,\"repo_first_null\":%d,\"repo_last_null\":%d,\"mutex_trylock\":%d,\"child_status\":%d,\"child_reached\":%d,\"steps\":%d,\"umask_end\":%d}\n",
+            rec_calls[7], badr, count, first_null, last_null, tl, child_status, child_reached, vs_steps(), (int)um_end);
     fclose(f);
     return 0;
 }
